@@ -40,6 +40,24 @@ def fam_nested(maxops):
     }
 
 
+def fam_timeouts():
+    """call() with timeout t against a callee that needs k more loop iterations, under run(): the result arrives
+    in time, on the last countdown tick, or the TimeoutError comes first; the caller ends or delivers a value after it"""
+    progs = []
+    for t in (None, 0, 1, 2):
+        for k in (0, 1, 3):
+            for after in ([], [['ret', 5]]):
+                progs.append({
+                    'comps': {'1': {'chan': 'a'}},
+                    'handlers': {
+                        '1': _h(1, ['x0'], 0, {'x0': [['call', {'name': 'x1', 'flags': 1}, t]] + after}),
+                        '2': _h(1, ['x1'], 0, {'x1': [['yield', None]] * k + [['ret', 7]]}),
+                    },
+                    'ext': [{'name': 'x0', 'flags': 5}],
+                    'ops': ['fire', 'run'], 'pre': [], 'maxops': 2, 'firers': [1], 'flushers': [1], 'dyn': []})
+    return progs
+
+
 RANDOM_OPTS = {
     'ncomp': 2, 'shapes': ['plain', 'class'], 'nhandlers': (3, 7), 'prios': [-1, 0, 0, 1],
     'kinds': ['named', 'named', 'named', 'named', 'catchall'], 'nnames': 4, 'chans': ['a'],
@@ -118,6 +136,7 @@ def run(tier, replay=None):
              'hist_cap_quick': 600},
             {'name': 'nested', 'programs': [fam_nested(2 if quick else 3)], 'hist_programs': [fam_nested(2 if quick else 3)],
              'hist_cap_quick': 600},
+            {'name': 'timeouts', 'programs': fam_timeouts(), 'hist_programs': fam_timeouts(), 'hist_cap_quick': 400},
         ],
         'teeth': [{'name': 'callwait/GenErrorHang', 'programs': [fam_callwait(2)], 'variants': {'GenErrorHang': True},
                    'expect': {'ConformsC05', 'ConformsC06', 'ConformsC04', 'CompleteDelivered', 'NoTaskResidue'}}],
